@@ -11,12 +11,14 @@
 EXTENDS Machine, KnownDevs
 
 AllDeviations == {"Dev_IncDecWritesCF", "Dev_NegZeroKeepsSF", "Dev_Imul8Flags",
-                  "Dev_JleConjunction", "Dev_LeaDsRelative", "Dev_DeepMacroChainAborts"}
+                  "Dev_JleConjunction", "Dev_LeaDsRelative", "Dev_MacroNestingLimit"}
 
-\* a chain of nested macro uses deeper than 2000 levels aborts with a native stack overflow
-\* (every level constructs and runs a fresh parser recursively); shallower chains must expand
-DevChainApplies(d, depth, status, timeout) ==
-  d = "Dev_DeepMacroChainAborts" /\ depth > 2000 /\ ~timeout /\ status # 0
+\* macro uses nested deeper than MaxNesting levels are refused with a diagnostic instead of being expanded
+\* (the limit replaced a native stack overflow: every level re-enters the parser recursively); a chain of
+\* `depth` macros has `depth` macros being expanded at its innermost use
+MaxNesting == 128
+DevChainApplies(d, depth, status, timeout, ok, deep) ==
+  d = "Dev_MacroNestingLimit" /\ depth > MaxNesting /\ ~timeout /\ status = 0 /\ ~ok /\ deep
 
 BinOrLogic(op, w, a, b, cin) ==
   IF op \in {"and", "or", "xor", "test"} THEN Logic(op, w, a, b) ELSE BinArith(op, w, a, b, cin)
